@@ -753,7 +753,9 @@ func c12SideEffects(w *World, r *Report) {
 		if fn == nil || fn.Blocks == nil {
 			continue
 		}
-		for _, c := range findCalls(fn, func(c *ssa.CallCommon) bool { return c.IsInvoke() && c.Value == fn.Params[1] && !readOnly[c.Method.Name()] }) {
+		for _, c := range findCalls(fn, func(c *ssa.CallCommon) bool {
+			return c.IsInvoke() && c.Value == fn.Params[1] && !readOnly[c.Method.Name()]
+		}) {
 			uses = append(uses, use{fn, c.Common().Method.Name(), c})
 		}
 	}
